@@ -4,6 +4,7 @@ import (
 	"context"
 	"errors"
 	"fmt"
+	"sort"
 
 	"github.com/go-openapi/jsonpointer"
 )
@@ -92,7 +93,37 @@ func (header *Header) Validate(ctx context.Context, opts ...ValidationOption) er
 			return fmt.Errorf("header content is invalid: %w", err)
 		}
 	}
-	return nil
+
+	// example and examples, as for a parameter
+	if header.Example != nil && header.Examples != nil {
+		return errors.New("header example and examples are mutually exclusive")
+	}
+	if schema := header.Schema; schema != nil {
+		if vo := getValidationOptions(ctx); !vo.examplesValidationDisabled {
+			if example := header.Example; example != nil {
+				if err := validateExampleValue(ctx, example, schema.Value); err != nil {
+					return fmt.Errorf("invalid example: %w", err)
+				}
+			} else if examples := header.Examples; examples != nil {
+				names := make([]string, 0, len(examples))
+				for name := range examples {
+					names = append(names, name)
+				}
+				sort.Strings(names)
+				for _, k := range names {
+					v := examples[k]
+					if err := v.Validate(ctx); err != nil {
+						return fmt.Errorf("%s: %w", k, err)
+					}
+					if err := validateExampleValue(ctx, v.Value.Value, schema.Value); err != nil {
+						return fmt.Errorf("%s: %w", k, err)
+					}
+				}
+			}
+		}
+	}
+
+	return validateExtensions(ctx, header.Extensions)
 }
 
 // UnmarshalJSON sets Headers to a copy of data.
